@@ -31,6 +31,7 @@ func regCmd(args []string) error {
 	out := fs.String("out", "", "trace file")
 	snap := fs.Bool("snap", true, "record a state snapshot after every step")
 	record := fs.Bool("record", true, "record the backend calls behind stacks with an HTTP hop")
+	pre := fs.Int("pre", 0, "apply the first N ops of each scenario directly to the in-memory registry underneath the stack")
 	honest := fs.Bool("honest", false, "uploads only as a well-behaved caller drives them (needed for stacks with an HTTP hop)")
 	fs.Parse(args)
 	f, err := os.Create(*out)
@@ -54,7 +55,13 @@ func regCmd(args []string) error {
 	run := func(sc Scenario) error {
 		env := &stackEnv{imm: sc.Imm}
 		var rec *recorder
-		if *record && strings.Contains(sc.Stack, "http") && !strings.Contains(sc.Stack, "sub(") && !strings.Contains(sc.Stack, "unify") {
+		wrap := "none"
+		if strings.Contains(sc.Stack, "ro(") {
+			wrap = "ro"
+		} else if strings.Contains(sc.Stack, "immw(") {
+			wrap = "immw"
+		}
+		if *record && wrap == "none" && strings.Contains(sc.Stack, "http") && !strings.Contains(sc.Stack, "sub(") && !strings.Contains(sc.Stack, "unify") {
 			env.wrapMem = func(r ociregistry.Interface) ociregistry.Interface {
 				rec = &recorder{Interface: r, cat: cat}
 				return rec
@@ -73,9 +80,24 @@ func regCmd(args []string) error {
 			w.prefix = env.subPrefix
 		}
 		w.emit(ev{"op": "reset", "imm": sc.Imm, "stack": sc.Stack, "hops": strings.Count(sc.Stack, "http"), "rec": rec != nil,
-			"omitdigest": strings.Contains(sc.Stack, "omitdigest")})
+			"omitdigest": strings.Contains(sc.Stack, "omitdigest"), "wrap": wrap})
 		ctx := context.Background()
-		for _, op := range sc.Ops {
+		for i, op := range sc.Ops {
+			if i < *pre && len(env.mems) == 1 {
+				// pre-population: applied to the in-memory registry directly, underneath the stack
+				w.top, w.direct = env.mems[0], true
+			} else {
+				if w.direct {
+					// writer handles obtained underneath do not go through the stack; the ids of
+					// sessions opened underneath mean nothing to a client
+					w.writers = map[string]BlobWriterT{}
+					if strings.Contains(sc.Stack, "http") {
+						w.ids = map[string]string{}
+					}
+				}
+				w.top, w.direct = top, false
+				w.noFreshIDs = strings.Contains(sc.Stack, "http")
+			}
 			w.step(ctx, op)
 			w.snap(ctx)
 		}
